@@ -29,7 +29,9 @@ def dep5_text(paragraphs: list) -> str:
         out.append("\nFiles: " + " ".join(pg["patterns"]) + "\n")
         cop = pg["cop"]
         out.append("Copyright: " + cop[0] + "\n" + "".join("           " + c + "\n" for c in cop[1:]))
-        out.append("License: " + pg["lic"] + "\n")
+        # (every other paragraph carries the text of its licence below the expression, as the format allows)
+        body = "\n Permission is hereby granted to whoever reads this.\n .\n Second paragraph of the text." if len(out) % 2 else ""
+        out.append("License: " + pg["lic"] + body + "\n")
         if pg.get("comment"):
             out.append("Comment: " + pg["comment"] + "\n")
     return "".join(out)
